@@ -46,6 +46,16 @@ fn parse_operand(t: &str) -> RowSelection {
         RowSelection::from(parse_sels(r))
     } else if let Some(m) = t.strip_prefix("M:") {
         RowSelection::from_boolean_buffer(BooleanBuffer::from(parse_bits(m)))
+    } else if t.starts_with('M') {
+        // `M<k>:bits`: the same mask as a slice at bit offset k of a larger buffer whose
+        // surrounding bits are set (offset / unaligned layout class); via `From<BooleanBuffer>`
+        let (k, m) = t[1..].split_once(':').expect("operand");
+        let k: usize = k.parse().expect("offset");
+        let bits = parse_bits(m);
+        let mut all = vec![true; k];
+        all.extend_from_slice(&bits);
+        all.extend_from_slice(&[true, true, true]);
+        RowSelection::from(BooleanBuffer::from(all).slice(k, bits.len()))
     } else {
         panic!("bad operand")
     }
@@ -82,12 +92,25 @@ fn show_rs(sel: &RowSelection) -> String {
             return format!("INCONSISTENT-MASK {}|{}", m.len(), show_ranges(&p2));
         }
     }
-    format!("{}|{}|{}", d, show_ranges(&pos), show_sels(sel.iter()))
+    let raw = show_sels(sel.iter());
+    let v: Vec<RowSelector> = sel.clone().into();
+    let dq: std::collections::VecDeque<RowSelector> = sel.clone().into();
+    if show_sels(v.iter()) != raw || show_sels(dq.iter()) != raw {
+        return format!("INCONSISTENT-INTO {}|{}", raw, show_sels(v.iter()));
+    }
+    format!("{}|{}|{}", d, show_ranges(&pos), raw)
 }
 
 // ------------------------------------------------------------------ test files
 
-const NCOLS: usize = 4; // id, a, s, l
+const NCOLS: usize = 5; // id, a, s, l, st
+const COLS: [&str; 5] = ["id", "a", "s", "l", "st"];
+fn val_st(i: usize) -> Option<(Option<i32>, Option<String>)> {
+    if i % 13 == 6 { None } else { Some((if i % 4 == 1 { None } else { Some((i * 3) as i32) }, if i % 5 == 2 { None } else { Some(format!("y{}", i % 17)) })) }
+}
+fn st_fields() -> arrow_schema::Fields {
+    arrow_schema::Fields::from(vec![Field::new("x", DataType::Int32, true), Field::new("y", DataType::Utf8, true)])
+}
 fn val_a(i: usize) -> Option<i32> {
     if i % 11 == 5 { None } else { Some(((i * 7 + 3) % 101) as i32) }
 }
@@ -107,6 +130,7 @@ fn schema() -> Arc<Schema> {
         Field::new("a", DataType::Int32, true),
         Field::new("s", DataType::Utf8, true),
         Field::new("l", DataType::List(Arc::new(Field::new_list_field(DataType::Int32, true))), true),
+        Field::new("st", DataType::Struct(st_fields()), true),
     ]))
 }
 fn make_batch(lo: usize, hi: usize) -> RecordBatch {
@@ -125,7 +149,11 @@ fn make_batch(lo: usize, hi: usize) -> RecordBatch {
             }
         }
     }
-    RecordBatch::try_new(schema(), vec![Arc::new(id), Arc::new(a), Arc::new(s), Arc::new(lb.finish())]).unwrap()
+    let sx = Int32Array::from((lo..hi).map(|i| val_st(i).and_then(|v| v.0)).collect::<Vec<_>>());
+    let sy = StringArray::from((lo..hi).map(|i| val_st(i).and_then(|v| v.1)).collect::<Vec<_>>());
+    let nulls = arrow_buffer::NullBuffer::from((lo..hi).map(|i| val_st(i).is_some()).collect::<Vec<bool>>());
+    let st = arrow_array::StructArray::new(st_fields(), vec![Arc::new(sx) as ArrayRef, Arc::new(sy) as ArrayRef], Some(nulls));
+    RecordBatch::try_new(schema(), vec![Arc::new(id), Arc::new(a), Arc::new(s), Arc::new(lb.finish()), Arc::new(st)]).unwrap()
 }
 fn render(col: &ArrayRef, i: usize) -> String {
     if col.is_null(i) {
@@ -141,6 +169,11 @@ fn render(col: &ArrayRef, i: usize) -> String {
                 (0..v.len()).map(|j| if v.is_null(j) { "n".into() } else { v.value(j).to_string() }).collect();
             format!("[{}]", items.join(" "))
         }
+        DataType::Struct(_) => {
+            let st = col.as_struct();
+            format!("{{{} {}}}", render(st.column(0), i), render(st.column(1), i))
+        }
+        DataType::Int64 => col.as_primitive::<arrow_array::types::Int64Type>().value(i).to_string(),
         _ => "?".into(),
     }
 }
@@ -149,12 +182,16 @@ fn render_expected(c: usize, i: usize) -> String {
         0 => i.to_string(),
         1 => val_a(i).map(|x| x.to_string()).unwrap_or("null".into()),
         2 => val_s(i).unwrap_or("null".into()),
-        _ => match val_l(i) {
+        3 => match val_l(i) {
             None => "null".into(),
             Some(v) => format!(
                 "[{}]",
                 v.iter().map(|x| x.map(|y| y.to_string()).unwrap_or("n".into())).collect::<Vec<_>>().join(" ")
             ),
+        },
+        _ => match val_st(i) {
+            None => "null".into(),
+            Some((x, y)) => format!("{{{} {}}}", x.map(|v| v.to_string()).unwrap_or("null".into()), y.unwrap_or("null".into())),
         },
     }
 }
@@ -347,20 +384,28 @@ fn configure<T>(
         b = b.with_limit(t[10].parse().unwrap());
     }
     b = b.with_batch_size(t[11].parse().unwrap());
-    let cols: Vec<usize> = t[12].split(',').map(|c| ["id", "a", "s", "l"].iter().position(|x| *x == c).unwrap()).collect();
+    if let Some((_, c)) = t[0].split_once(".c") {
+        b = b.with_max_predicate_cache_size(c.parse().unwrap());
+    }
+    let cols: Vec<usize> = t[12].split(',').filter(|c| *c != "rn").map(|c| COLS.iter().position(|x| *x == c).unwrap()).collect();
     b.with_projection(ProjectionMask::roots(&sd, cols))
 }
 
 fn run_read(t: &[&str]) -> ReadOut {
-    let mode = t[0];
+    let mode = t[0].split('.').next().unwrap();
     let sizes = parse_list::<usize>(t[1]);
     let idx: usize = t[3].parse().unwrap();
     let file = get_file(t[1], t[2], idx != 0);
     let groups = parse_list::<usize>(t[4]);
     let bs: usize = t[11].parse().unwrap();
     let proj: Vec<&str> = t[12].split(',').collect();
-    let options = ArrowReaderOptions::new()
+    let mut options = ArrowReaderOptions::new()
         .with_page_index_policy(if idx == 2 { PageIndexPolicy::Optional } else { PageIndexPolicy::Skip });
+    if proj.contains(&"rn") {
+        // virtual row-number column: must follow the rows through every kind of skipping
+        let f = Field::new("rn", DataType::Int64, false).with_extension_type(parquet::arrow::RowNumber);
+        options = options.with_virtual_columns(vec![Arc::new(f)]).expect("virtual column");
+    }
 
     // ---- reference: post-filter the full read, in the harness
     let mut concat: Vec<usize> = vec![]; // file row id of each row of the chosen groups, in order
@@ -415,6 +460,31 @@ fn run_read(t: &[&str]) -> ReadOut {
             let b = ParquetRecordBatchStreamBuilder::new_with_metadata(rd, md);
             let stream = configure(b, t).build().map_err(|e| format!("build {e}"))?;
             futures::executor::block_on(stream.try_collect::<Vec<_>>()).map_err(|e| format!("read {e}"))
+        } else if mode == "pushr" {
+            // `try_next_reader` per row group, and the decoder rebuilt through `into_builder`
+            // at every row-group boundary (remaining row groups / selection / budget carried over)
+            let md = ArrowReaderMetadata::load(&file.bytes, options).map_err(|e| format!("open {e}"))?;
+            let b = ParquetPushDecoderBuilder::new_with_metadata(md);
+            let mut dec = configure(b, t).build().map_err(|e| format!("build {e}"))?;
+            let mut out = vec![];
+            loop {
+                match dec.try_next_reader().map_err(|e| format!("read {e}"))? {
+                    DecodeResult::NeedsData(ranges) => {
+                        let bufs = ranges.iter().map(|r| file.bytes.slice(r.start as usize..r.end as usize)).collect();
+                        dec.push_ranges(ranges, bufs).map_err(|e| format!("push {e}"))?;
+                    }
+                    DecodeResult::Data(reader) => {
+                        for b in reader {
+                            out.push(b.map_err(|e| format!("read {e}"))?);
+                        }
+                        if dec.is_at_row_group_boundary() {
+                            dec = dec.into_builder().map_err(|e| format!("rebuild {e}"))?.build().map_err(|e| format!("build {e}"))?;
+                        }
+                    }
+                    DecodeResult::Finished => break,
+                }
+            }
+            Ok(out)
         } else {
             let md = ArrowReaderMetadata::load(&file.bytes, options).map_err(|e| format!("open {e}"))?;
             let b = ParquetPushDecoderBuilder::new_with_metadata(md);
